@@ -83,14 +83,14 @@ class Env:
     def fun(self, x):
         self.nf += 1
         self.calls.append(("f", np.asarray(x, dtype=float).tobytes()))
-        if (x < self.lb).any() or (x > self.ub).any():
+        if not ((x >= self.lb) & (x <= self.ub)).all():
             self.outside += 1
         return self.ans(x)[0]
 
     def jac(self, x):
         self.ng += 1
         self.calls.append(("g", np.asarray(x, dtype=float).tobytes()))
-        if (x < self.lb).any() or (x > self.ub).any():
+        if not ((x >= self.lb) & (x <= self.ub)).all():
             self.outside += 1
         return self.ans(x)[1].copy()
 
